@@ -258,8 +258,11 @@ class Ctx:
                 total["n_mismatch"] += 1
                 err = (res.get("stderr") or "")
                 first = next((l for l in err.splitlines() if l.startswith(("fatal error", "panic:", "runtime:", "SIGSEGV"))), err[:200])
+                # the innermost function of the library or of its dependency on the dying goroutine's stack
+                m = re.search(r"github\.com/jsightapi/(jsight-[a-z-]+)(?:@[^/]+)?/([\w./-]+(?:\(\*?\w+\))?[\w.]*)\(", err)
+                site = (":" + m.group(1) + "/" + m.group(2)) if m else ""
                 total["mismatches"].append(dict(
-                    sig="%s:process-died:%s" % (sig_prefix, first[:80]),
+                    sig="%s:process-died:%s%s" % (sig_prefix, first[:80], site),
                     what="the process running the real code died or hung on this case (rc=%s): %s" % (res.get("rc"), first[:300]),
                     replay=dict(kind="raw-case", sub=sub, line=lines[0].strip()[:20000])))
                 return
@@ -284,7 +287,7 @@ class Ctx:
                 if not res.get("error"):
                     return res
                 return dict(error=res["error"], rc=p.returncode, stderr=p.stderr[-4000:])
-        return dict(error="no result", rc=p.returncode, stderr=p.stderr[-6000:])
+        return dict(error="no result", rc=p.returncode, stderr=p.stderr[:6000] + "\n...\n" + p.stderr[-6000:])
 
     # ------------------------------------------------------------- violations
     def violation(self, sig, what, replay):
